@@ -5,7 +5,13 @@
     Model: model/Html.v ([html_escape_go] = the rune loop of html/template's
     text escaper, [html_escape] = the same byte by byte, [html_unescape],
     [render503]) and model/Seq.v (the sequential machine: [exec], [serve];
-    a service's pause controller is [s_pause], shared by every redeployed copy). *)
+    a service's pause controller is [s_pause], shared by every redeployed copy).
+
+    Residue (not modelled, kept out of the correspondence inputs): requests
+    under /.well-known/acme-challenge/ to a root-path service with automatic
+    TLS are answered by autocert's HTTP-01 handler before any policy and
+    before the stopped gate; custom error page directories without a 503.html
+    (the built-in page is used then). *)
 From KP Require Import model.Base model.ServiceMap model.Seq model.Html.
 From KP Require Import proofs.ServiceMapFacts proofs.HtmlFacts proofs.PauseFacts.
 
